@@ -1,7 +1,17 @@
 ------------------------------ MODULE TapTableObs ------------------------------
-(* C31, implementation level: net A uses the characteristic table, net B has tap_dependency_table = False with the *)
-(* spec-chosen row's values entered directly; both solved by runpp.  a / b = [vm, va, p_hv, q_hv, p_lv, q_lv].    *)
-EXTENDS Fix, Json, IOUtils
+(* C31, implementation level.  Every case carries its family C.fam:                                              *)
+(* "w2" (three 2W transformers, TapTable.tla Init): net A uses the characteristic table, net B has               *)
+(*   tap_dependency_table = False with the spec-chosen row's values entered directly; both solved by runpp.       *)
+(*   a / b = [vm, va, p_hv, q_hv, p_lv, q_lv].                                                                    *)
+(* "w3" (three-winding family, TapTable.tla Init3 / TapTableDef.tla): C.cfg = [w, o, member], C.eff = [tab, ref]  *)
+(*   as dumped by the model run, C.rows = the numbers the harness put into the table for every C.eff.tab row      *)
+(*   (micro-units: ratio, angle, vk = <<vk_hv, vk_mv, vk_lv, vk_percent>>), a / b = [conv, vm, va, p3, q3 (hv, mv, *)
+(*   lv terminal flows of both trafo3w), p2, q2 (hv, lv flows of the 2W transformer)].  Which oracle a member     *)
+(*   uses (self consistency "dep_off" / row "entered" directly) is RefW(C.cfg) of TapTableDef.                    *)
+(* Tolerance for all comparisons of two independent solves (tolerance_mva = 1e-9): Close(a, b, 30, 20) =          *)
+(* 30 micro-units + 20 ppm; voltage angles 300 micro-degrees + 20 ppm.                                            *)
+(* Non-converged 3W runs satisfy the clauses vacuously (counted by the harness, not flagged).                     *)
+EXTENDS Fix, Json, IOUtils, TapTableDef
 VARIABLE i
 Cases == JsonDeserialize(IOEnv.OBS_FILE)
 OInit == i \in 1..Len(Cases)
@@ -9,9 +19,37 @@ ONext == UNCHANGED i
 C == Cases[i]
 AbsTol == 30
 RelPpm == 20
-C31_BothSolve == C.a.conv /\ C.b.conv
-C31_BusVoltages == (C.a.conv /\ C.b.conv) => CloseSeq(C.a.vm, C.b.vm, AbsTol, RelPpm) /\ CloseSeq(C.a.va, C.b.va, 10 * AbsTol, RelPpm)
-C31_TrafoFlows == (C.a.conv /\ C.b.conv) => /\ CloseSeq(C.a.p_hv, C.b.p_hv, AbsTol, RelPpm) /\ CloseSeq(C.a.q_hv, C.b.q_hv, AbsTol, RelPpm)
-                                            /\ CloseSeq(C.a.p_lv, C.b.p_lv, AbsTol, RelPpm) /\ CloseSeq(C.a.q_lv, C.b.q_lv, AbsTol, RelPpm)
-C31_InputsUntouched == Len(C.changed) = 0       \* C08 on the same run: the lookup must not write into net.trafo
+W2 == C.fam = "w2"
+W3 == C.fam = "w3"
+Both == C.a.conv /\ C.b.conv
+C31_BothSolve == W2 => Both
+C31_BusVoltages == (W2 /\ Both) => CloseSeq(C.a.vm, C.b.vm, AbsTol, RelPpm) /\ CloseSeq(C.a.va, C.b.va, 10 * AbsTol, RelPpm)
+C31_TrafoFlows == (W2 /\ Both) => /\ CloseSeq(C.a.p_hv, C.b.p_hv, AbsTol, RelPpm) /\ CloseSeq(C.a.q_hv, C.b.q_hv, AbsTol, RelPpm)
+                                  /\ CloseSeq(C.a.p_lv, C.b.p_lv, AbsTol, RelPpm) /\ CloseSeq(C.a.q_lv, C.b.q_lv, AbsTol, RelPpm)
+\* C08 on the same run: the lookup must not write into net.trafo / net.trafo3w / the table (any input table, both families)
+C31_InputsUntouched == Len(C.changed) = 0
+-----------------------------------------------------------------------------
+\* three-winding family: A (table) = B (reference RefW(C.cfg)) on all bus voltages and all transformer terminal flows
+C31_3W_BusVoltages == (W3 /\ Both) => CloseSeq(C.a.vm, C.b.vm, AbsTol, RelPpm) /\ CloseSeq(C.a.va, C.b.va, 10 * AbsTol, RelPpm)
+C31_3W_Flows == (W3 /\ Both) => /\ CloseSeq(C.a.p3, C.b.p3, AbsTol, RelPpm) /\ CloseSeq(C.a.q3, C.b.q3, AbsTol, RelPpm)
+                                /\ CloseSeq(C.a.p2, C.b.p2, AbsTol, RelPpm) /\ CloseSeq(C.a.q2, C.b.q2, AbsTol, RelPpm)
+\* integrity of the binding (a failure is a harness error, never a finding): the case is a state of the model family,
+\* the table sources / reference kind it carries are the ones the spec derives from C.cfg, and the numbers of every
+\* non-junk row differ from those of every other row (ratio by >= 0.002 or angle by >= 0.1 deg, and vk_hv, vk_mv,
+\* vk_lv, vk_percent each by >= 0.1), so that reading any other row is observable.
+C31_3W_CaseFromSpec ==
+  W3 => /\ (C.cfg.member = "lin" => LinOK(C.cfg.w)) /\ (C.cfg.member = "off" => OffOK(C.cfg.w))
+        /\ C.cfg.w.side \in Sides /\ C.cfg.w.type \in Types /\ C.cfg.o.kind \in OKinds
+        /\ (IF C.cfg.o.kind = "none" THEN C.cfg.o.pos = C.cfg.w.pos ELSE C.cfg.o.pos # C.cfg.w.pos)
+        /\ C.eff.ref = RefW(C.cfg)
+        /\ Len(C.rows) = Len(C.eff.tab)
+        /\ \A k \in 1..Len(C.eff.tab) : /\ C.eff.tab[k].src = Src3(C.cfg, C.eff.tab[k].id, C.eff.tab[k].pos)
+                                        /\ C.rows[k].id = C.eff.tab[k].id /\ C.rows[k].pos = C.eff.tab[k].pos
+        /\ \A k, m \in 1..Len(C.eff.tab) : k # m => (C.eff.tab[k].id # C.eff.tab[m].id \/ C.eff.tab[k].pos # C.eff.tab[m].pos)
+        /\ (C.cfg.w.dep => \E k \in 1..Len(C.eff.tab) : C.eff.tab[k].id = C.cfg.w.id /\ C.eff.tab[k].pos = C.cfg.w.pos)
+Far(x, y, d) == Abs(x - y) >= d
+C31_3W_RowsDistinct ==
+  W3 => \A k, m \in 1..Len(C.rows) : (k # m /\ C.eff.tab[k].src # "junk") =>
+          /\ (Far(C.rows[k].ratio, C.rows[m].ratio, 2000) \/ Far(C.rows[k].angle, C.rows[m].angle, 100000))
+          /\ \A n \in 1..4 : Far(C.rows[k].vk[n], C.rows[m].vk[n], 100000)
 =============================================================================
